@@ -220,6 +220,13 @@ pub(crate) fn replay_wal(
 						));
 					}
 					Err(WalError::IO(err)) if err.kind() == std::io::ErrorKind::UnexpectedEof => {
+						// A torn tail (partial header, unfinished fragment) reads as a
+						// clean end of the log. The writer is going to append to the last
+						// segment: cut the tail off, or the new records would sit behind
+						// bytes the next recovery cannot get past.
+						if segment_id == last && batches_in_segment > 0 {
+							truncate_torn_tail(&segment.file_path, last_valid_offset as u64)?;
+						}
 						break 'segment (current_memtable, batches_in_segment); // End of this segment
 					}
 					Err(err) => return Err(err.into()),
@@ -259,6 +266,17 @@ pub(crate) fn replay_wal(
 	);
 
 	Ok((result, memtables))
+}
+
+/// Shortens `path` to `valid_len`, the end of its last complete record, if it is longer.
+fn truncate_torn_tail(path: &Path, valid_len: u64) -> Result<()> {
+	if std::fs::metadata(path)?.len() > valid_len {
+		let file = std::fs::OpenOptions::new().write(true).open(path)?;
+		file.set_len(valid_len)?;
+		file.sync_all()?;
+		log::warn!("Removed a torn tail from WAL segment {:?}: now {} bytes", path, valid_len);
+	}
+	Ok(())
 }
 
 pub(crate) fn repair_corrupted_wal_segment(wal_dir: &Path, segment_id: usize) -> Result<()> {
